@@ -57,6 +57,20 @@ class LitT(ast.NodeTransformer):
             return ast.copy_location(new, node)
         return node
 
+    def visit_Assign(self, node):
+        """`dn = 2000`, `blksize = 10000`: internal chunk sizes become `_BLK(2000)`, which a harness may scale down *at call time*
+        (loader.BLOCK_OVERRIDE) so that the chunk-boundary logic is exercised at symbolic sizes of 3-5 points; the default is the
+        literal value"""
+        self.generic_visit(node)
+        if len(node.targets) == 1 and isinstance(node.targets[0], ast.Name) and node.targets[0].id in ("dn", "blksize", "BLKSIZE"):
+            class _Big(ast.NodeTransformer):
+                def visit_Constant(self, c):
+                    if isinstance(c.value, int) and not isinstance(c.value, bool) and c.value >= 100:
+                        return ast.copy_location(ast.Call(ast.Name("_BLK", ast.Load()), [c], []), c)
+                    return c
+            node.value = _Big().visit(node.value)
+        return node
+
     def visit_AugAssign(self, node):
         self.generic_visit(node)
         return node
@@ -76,6 +90,13 @@ class LitT(ast.NodeTransformer):
         return out
 
     # do not rewrite literals inside default-argument-free type annotations / decorators: harmless.
+
+
+BLOCK_OVERRIDE = {}
+
+
+def _BLK(v):
+    return BLOCK_OVERRIDE.get(v, v)
 
 
 def _DTEQ(arr, dt):
@@ -125,7 +146,7 @@ class SymLoader(importlib.abc.Loader):
             src = f.read()
         LOADED_SOURCES[self.path] = hashlib.sha256(src.encode()).hexdigest()
         code = transform_source(src, self.path)
-        module.__dict__.update({"_Q": _Q, "_DIV": _DIV, "_DTEQ": _DTEQ, "_NP": self.ctx.np})
+        module.__dict__.update({"_Q": _Q, "_DIV": _DIV, "_DTEQ": _DTEQ, "_BLK": _BLK, "_NP": self.ctx.np})
         exec(code, module.__dict__)
         hook = self.ctx.post_hooks.get(module.__name__)
         if hook:
